@@ -18,7 +18,7 @@ import threading
 from vlib import Suite, zlit, zlist, coqlist, blit
 
 ID = "C15"
-READY = False
+READY = True
 RULE = ("writer: schedules of 4-40 ops over {Save v, Shutdown, Crash, IoError, Tick} followed by a drain of Ticks, from "
         "one PRNG, biased so that saves fall into the rate-limit sleep, between clear/deepcopy/open/write/replace, "
         "shutdown falls before/after them, crashes and I/O errors hit every point of the temp-file write and the rename; "
@@ -69,7 +69,16 @@ class Ctl:
         self.cmd = None
         self.wid = None
         self.exc = None
-        self.nsleep = 0
+        self.thread = None
+
+    def kill(self):
+        """abandon the writer thread where it stands (it unwinds with SystemExit) and wait until it is gone, so that
+        its finally-blocks cannot touch FileManager.is_busy during the next case"""
+        if self.at != "done":
+            self.cmd = "kill"
+            self.go.release()
+        if self.thread is not None:
+            self.thread.join(10)
 
     def in_writer(self):
         return self.wid is not None and threading.get_ident() == self.wid
@@ -105,6 +114,7 @@ class StepEvent:
 
     def __init__(self):
         self._flag = False
+        self.nset = 0
 
     def is_set(self):
         c = CUR
@@ -114,6 +124,7 @@ class StepEvent:
 
     def set(self):
         self._flag = True
+        self.nset += 1
 
     def clear(self):
         c = CUR
@@ -171,6 +182,7 @@ def _start_new_thread(fn, args=(), kwargs=None):
         c.at = "done"
         c.ready.release()
     t = threading.Thread(target=body, daemon=True)
+    c.thread = t
     t.start()
     return t.ident
 
@@ -317,7 +329,15 @@ def canon(x):
 
 # ------------------------------------------------------------------------------------------------
 # suite "writer"
+HIST3 = ["T", "T", "S1"] + ["T"] * 9 + ["S2"] + ["T"] * 4 + ["S3"] + ["T"] * 14     # three saves, the third lands mid-write
+
+
 def gen_writer(rng, tier, i):
+    if i < 2 * len(HIST3):
+        # exhaustive: a crash (even i) or an I/O error (odd i) at every point of a fixed three-save history
+        k = i // 2
+        ops = HIST3[:k] + ["C" if i % 2 == 0 else "E"] + HIST3[k:] + ["T"] * DRAIN
+        return {"ops": ops, "pseed": rng.randrange(10 ** 6), "init_file": i % 3 == 0, "init_temp": 0}
     n = rng.choice([4, 6, 8, 10, 12, 16, 20, 28, 40])
     style = rng.random()
     ops = []
@@ -441,9 +461,7 @@ class WriterRun:
     def close(self):
         global CUR
         try:
-            if self.ctl.at != "done":
-                self.ctl.cmd = "kill"
-                self.ctl.go.release()
+            self.ctl.kill()
         finally:
             CUR = None
             self.FileManager.is_busy = False
@@ -577,14 +595,243 @@ def describe_writer(case):
                                " crash" if "C" in ops else "", " err" if "E" in ops else "")
 
 
+# ------------------------------------------------------------------------------------------------
+# suite "vars": machine-variable persistence through a real file and a simulated reboot
+VNAMES = {1: "credit_units", 2: "player1_score", 3: "x y", 4: "v\u00e4r_4"}
+T0 = 1700000000
+
+
+class TsClock:
+    def __init__(self, t):
+        self.t = t
+
+    def get_datetime(self):
+        return self
+
+    def timestamp(self):
+        return float(self.t)
+
+
+def gen_vars(rng, tier, i):
+    ops = []
+    n = rng.randint(3, 14)
+    while len(ops) < n:
+        r = rng.random()
+        name = rng.choice([1, 1, 2, 2, 3, 4])
+        if r < 0.45:
+            ops.append(["set", name, rng.choice([0, 1, 1, 2, 5, -3, 10 ** 12, rng.randint(-5, 5)]), rng.random() < 0.4])
+        elif r < 0.65:
+            ops.append(["conf", name, rng.random() < 0.8, rng.choice([0, 0, 10, 100, 3600])])
+            if rng.random() < 0.7:      # the usual pattern: configure, then set
+                ops.append(["set", name, rng.choice([0, 1, 2, 5, rng.randint(-5, 5)]), False])
+        elif r < 0.75:
+            ops.append(["remove", name])
+        else:
+            ops.append(["adv", rng.choice([0, 1, 9, 10, 11, 50, 100, 3600])])
+    return {"ops": ops, "dt": rng.choice([0, 1, 9, 10, 11, 89, 90, 99, 100, 101, 3599, 3600, 3601, 5000, 100000])}
+
+
+class Boot:
+    """one 'power cycle': real DataManager (lock-stepped writer thread) + real MachineVariables on a fake machine"""
+
+    def __init__(self, d, now):
+        global CUR
+        install_shims()
+        from mpf.core.file_manager import FileManager
+        from mpf.core.data_manager import DataManager
+        from mpf.core.machine_vars import MachineVariables
+        FileManager.is_busy = False
+        self.FileManager = FileManager
+        self.ctl = Ctl()
+        CUR = self.ctl
+        self.machine = FakeMachine(d, "machine_vars", "data/machine_vars.yaml")
+        self.machine.clock = TsClock(now)
+        self.dm = DataManager(self.machine, "machine_vars", min_wait_secs=1)
+        self.ctl.wait_started()
+        self.mv = MachineVariables(self.machine)
+        self.mv.load_machine_vars(self.dm, float(now))
+
+    def flush_and_stop(self):
+        """let the writer thread write what is pending, then shut down cleanly and let it end"""
+        for _ in range(20):
+            if self.ctl.at in ("wait", "stop?") and not self.dm._dirty._flag:
+                break
+            self.ctl.resume("tick")
+        self.machine.thread_stopper.set()
+        for _ in range(20):
+            if self.ctl.at == "done":
+                break
+            self.ctl.resume("tick")
+        return self.ctl.at == "done"
+
+    def close(self):
+        global CUR
+        self.ctl.kill()
+        CUR = None
+        self.FileManager.is_busy = False
+
+
+def vz(x):
+    """int/None/float-with-integer-value -> [has, value]"""
+    if x is None:
+        return [0, 0]
+    if isinstance(x, bool) or not isinstance(x, (int, float)) or x != int(x):
+        return [7, 7]            # nothing the model can produce
+    return [1, int(x)]
+
+
+def run_vars(case):
+    d = tempfile.mkdtemp(prefix="verif_c15v_")
+    os.makedirs(os.path.join(d, "data"))
+    b = b2 = None
+    try:
+        b = Boot(d, T0)
+        rows = []
+        conf_at = {}
+        for o in case["ops"]:
+            if o[0] == "set":
+                b.mv.set_machine_var(VNAMES[o[1]], o[2], persist=o[3])
+            elif o[0] == "conf":
+                b.mv.configure_machine_var(VNAMES[o[1]], persist=o[2], expire_secs=o[3] or None)
+                conf_at[o[1]] = b.dm._dirty.nset
+            elif o[0] == "remove":
+                b.mv.remove_machine_var(VNAMES[o[1]])
+            else:
+                b.machine.clock.t += o[1]
+            row = [b.dm._dirty.nset]
+            for n in (1, 2, 3, 4):
+                e = b.dm.data.get(VNAMES[n]) if isinstance(b.dm.data, dict) else None
+                if e is None:
+                    row += [0, 0, 0, 0, 0]
+                else:
+                    row += [1] + vz(e["value"]) + [vz(e["expire"])[1], vz(e["expire_secs"])[1]]
+            rows.append(row)
+        nowb = b.machine.clock.t + case["dt"]
+        old = {}
+        for n in (1, 2, 3, 4):
+            v = b.mv.machine_vars.get(VNAMES[n])
+            if v is not None:
+                old[str(n)] = {"value": canon(v["value"]), "persist": bool(v["persist"]),
+                               "timeout": v["timeout"], "unwritten_conf": conf_at.get(n) == b.dm._dirty.nset}
+        handed = canon(b.dm.data)
+        wrote = b.dm._dirty.nset > 0
+        ended = b.flush_and_stop()
+        fname = os.path.join(d, "data", "machine_vars.yaml")
+        ondisk = canon(b.FileManager.load(fname, halt_on_error=False)) if os.path.isfile(fname) else None
+        b.close()
+        b = None
+        b2 = Boot(d, nowb)
+        new = {}
+        lrow = []
+        for n in (1, 2, 3, 4):
+            v = b2.mv.machine_vars.get(VNAMES[n])
+            if v is None:
+                lrow += [0, 0, 0]
+            else:
+                lrow += [1] + vz(v["value"])
+                new[str(n)] = {"value": canon(v["value"]), "persist": bool(v["persist"])}
+        return {"rows": rows + [lrow], "old": old, "new": new, "nowb": nowb, "ended": ended,
+                "handed": handed, "ondisk": ondisk, "wrote": wrote}
+    finally:
+        for x in (b, b2):
+            if x is not None:
+                x.close()
+        shutil.rmtree(d, ignore_errors=True)
+
+
+def coq_vop(o):
+    if o[0] == "set":
+        return "(VSet %d %s %s)" % (o[1], zlit(o[2]), blit(o[3]))
+    if o[0] == "conf":
+        return "(VConf %d %s %s)" % (o[1], blit(o[2]), zlit(o[3]))
+    if o[0] == "remove":
+        return "(VRemove %d)" % o[1]
+    return "(VAdv %s)" % zlit(o[1])
+
+
+def coq_vars(case, out):
+    return "((%s, %s), %s)" % (coqlist(coq_vop(o) for o in case["ops"]), zlit(case["dt"]),
+                               coqlist(zlist(r) for r in out["rows"]))
+
+
+def oracle_vars(case, out):
+    fails = []
+    if not out["ended"]:
+        fails.append({"sig": "writer-stuck", "what": "writer thread did not end after a clean shutdown"})
+    if out["wrote"] and out["ondisk"] != out["handed"]:
+        fails.append({"sig": "vars-file-differs", "what": "after a clean shutdown the machine_vars file differs from "
+                                                          "the data last handed to save_all"})
+    last_disk = out["rows"][-2] if len(out["rows"]) >= 2 else [0] * 21
+    for n, o in out["old"].items():
+        if not o["persist"]:
+            continue
+        expired = bool(o["timeout"]) and o["timeout"] < out["nowb"]
+        got = out["new"].get(n)
+        gotv = None if got is None else got["value"]
+        if expired and got is None:
+            continue
+        if not expired and (gotv == o["value"] or (got is None and o["value"] == "NoneType:None")):
+            continue
+        # a failure.  Is it exactly what "configure_machine_var does not write" produces?  Then the stale entry handed
+        # to save_all before that configure call decides what reloads.
+        k = 1 + 5 * (int(n) - 1)
+        present, has, val, exp = last_disk[k], last_disk[k + 1], last_disk[k + 2], last_disk[k + 3]
+        stale_loaded = bool(present) and not (exp and exp < out["nowb"])
+        stale_val = ("int:%d" % val) if has == 1 else "NoneType:None"
+        by_defect = (got is None and not stale_loaded) or (got is not None and stale_loaded and gotv == stale_val)
+        if o["unwritten_conf"] and by_defect:
+            fails.append({"sig": "persist-configured-not-written",
+                          "what": "configure_machine_var changed persist/expiry of a variable and nothing was written "
+                                  "afterwards: the next boot goes by the stale entry on disk"})
+        elif expired:
+            fails.append({"sig": "expired-var-reloaded", "what": "variable %s reloaded after its expiry time" % n})
+        else:
+            fails.append({"sig": "persist-reload-differs",
+                          "what": "persistent variable %s = %s reloads as %s" % (n, o["value"], got)})
+    return fails
+
+
+def shrink_vars(case):
+    ops = case["ops"]
+    for i in range(len(ops)):
+        yield dict(case, ops=ops[:i] + ops[i + 1:])
+
+
+def nontrivial_vars(case, out):
+    ts = [o["timeout"] for o in out["old"].values() if o["persist"] and o["timeout"]]
+    return bool(ts) or any(o["persist"] for o in out["old"].values())
+
+
+def describe_vars(case):
+    k = set(o[0] for o in case["ops"])
+    return " ".join(sorted(k))
+
+
+HDR_VARS = "From C15 Require Import Model.\nDefinition run := vars_run.\nDefinition out_eqb := zss_eqb.\n"
+
 HDR_WRITER = "From C15 Require Import Model.\nDefinition run := writer_run.\nDefinition out_eqb := zss_eqb.\n"
 
 SUITES = [
     Suite("writer", gen_writer, run_writer, HDR_WRITER, coq_writer, oracle_writer, shrink_writer, nontrivial_writer,
           {"quick": 1600, "thorough": 40000}, describe=describe_writer, shard=200),
+    Suite("vars", gen_vars, run_vars, HDR_VARS, coq_vars, oracle_vars, shrink_vars, nontrivial_vars,
+          {"quick": 600, "thorough": 15000}, describe=describe_vars, shard=200),
 ]
 
-LEVEL_TEXT = ""
-LEVEL_NOTE = ""
+LEVEL_TEXT = ("Machine-checked proof (Coq) over a program-counter model of DataManager._writing_thread + FileManager.save + the "
+              "two files on disk, for ALL schedules of saves, shutdown, crashes and I/O errors: the data file is always a "
+              "complete version that was saved earlier (os.replace is its only writer; a crash freezes the disk as it is); "
+              "with the final-flush fix a clean shutdown leaves the last saved version on disk; with the try/finally fix a "
+              "failed write never blocks later saves (a new save lands within 24 thread steps from any reachable state). "
+              "Both fixes are needed: the same statements are refuted (vm_compute witnesses, reproduced on the unpatched "
+              "code) for the code before the patches. Machine variables: reload restores exactly the unexpired entries; "
+              "persisted variables reload equal whenever the file is in sync, which every op except configure_machine_var "
+              "maintains (known finding). The model is tied to the working tree by lock-stepping the real writer thread.")
+LEVEL_NOTE = ("Trusted: Coq kernel + vm_compute; no axioms. Hand-written model; correspondence validates flags, pc and directory "
+              "contents after every op of generated schedules against the real thread (run under shims for time.sleep, "
+              "threading.Event, copy.deepcopy, open, os.replace). Partial: process-crash model only (no fsync/power-loss "
+              "ordering); one data manager (the unlocked is_busy test-and-set between several managers is not modelled); "
+              "MachineController.shutdown does not join the writer thread - 'clean shutdown' here means the thread is "
+              "allowed to finish; YAML codec not modelled (round trip of every payload checked by the oracle).")
 TECHNIQUE = "Coq proof over hand-written executable model + differential correspondence (vm_compute) with a lock-stepped real writer thread + direct disk oracle"
 DESIGN_REF = "DESIGN.md section 3, C15"
